@@ -172,8 +172,15 @@ func vendingScenario(s *hx.Seq) {
 					}
 					for _, qu := range units {
 						for _, qa := range []float64{0, 1, 2.5, 7} {
-							for n := 1; n <= 2; n++ {
+							for n := 1; n <= 3; n++ {
+								// (the third round starts from a used amount of exactly zero: present, and nothing in it)
 								used := qty{usedPresent, uu, 2}
+								if n == 3 {
+									if !usedPresent {
+										continue
+									}
+									used.amount = 0
+								}
 								rem := qty{remPresent, ru, 5}
 								name := fmt.Sprintf("stock{used=%v,remaining=%v} dispense %vx %v%v", used, rem, n, qa, qu)
 								s.Eval(1)
